@@ -330,6 +330,7 @@ func c01Body(t *testing.T, cfg c01cfg, depth, npeers int) func(c *verifeng.Choos
 		out := verifbubble.Run(t, func() {
 			env = verifhfs.NewEnv(c)
 			env.Quiet = true
+			env.MemFiles = true
 			c01Run(c, f, env, depth, npeers)
 		})
 		if env != nil {
